@@ -448,5 +448,5 @@ func gen(r *hv.Rng, i int, tier string) (string, hv.Val) {
 }
 
 func main() {
-	hv.Main(&hv.Spec{Prop: "C45", Gen: gen, Impl: impl, NQuick: 20000, NThorough: 2000000})
+	hv.Main(&hv.Spec{Prop: "C45", Gen: gen, Impl: impl, NQuick: 40000, NThorough: 2000000})
 }
